@@ -7,6 +7,7 @@ package main
 
 import (
 	"fmt"
+	"sync"
 	"regexp"
 	"sort"
 	"strings"
@@ -41,6 +42,7 @@ type Obligation struct {
 	Secs   float64
 	Model  string
 	Cover  bool // cover obligation: expected to be SAT (reachable)
+	Block  int
 }
 
 type Stmt struct {
@@ -101,7 +103,6 @@ type ILLoop struct {
 	Key      string
 	Spec     *LoopSpec
 	Inv      []InvClause // elaborated invariants (text with @{} tokens)
-	AutoInv  []string
 	Modified []*MVar
 }
 
@@ -109,6 +110,7 @@ type InvClause struct {
 	E     string
 	Cl    *Clause
 	Props []string
+	Auto  string
 }
 
 func newILFunc(name string) *ILFunc {
@@ -338,11 +340,25 @@ func (f *ILFunc) cutLoops(fnName string, defaultProps []string) {
 			f.declConst(c, v.Sort)
 			snap[v] = c
 		}
+		for i := range l.Inv {
+			e := l.Inv[i].E
+			for _, v := range l.Modified {
+				e = strings.ReplaceAll(e, "@pre{"+v.Name+"}", snap[v])
+			}
+			if strings.Contains(e, "@pre{") {
+				// refers to a variable the loop does not modify: its pre-loop value is its current value
+				e = strings.ReplaceAll(e, "@pre{", "@{")
+			}
+			l.Inv[i].E = e
+		}
 		mkAsserts := func(kind string, blk *ILBlock) {
 			for i, inv := range l.Inv {
 				name := fmt.Sprintf("%s/%s@%s#%d", fnName, kind, key, i)
 				if inv.Cl != nil && inv.Cl.Name != "" {
 					name = fmt.Sprintf("%s/%s@%s[%s]", fnName, kind, key, inv.Cl.Name)
+				}
+				if inv.Auto != "" {
+					name = fmt.Sprintf("%s/%s@%s[auto:%s]", fnName, kind, key, inv.Auto)
 				}
 				props := inv.Props
 				if len(props) == 0 {
@@ -368,10 +384,10 @@ func (f *ILFunc) cutLoops(fnName string, defaultProps []string) {
 					e.To = x
 				} else {
 					eb := f.newBlock(fmt.Sprintf("loopentry(%d)", h.ID))
-					mkAsserts("inv-init", eb)
 					for _, v := range l.Modified {
 						eb.assume(fmt.Sprintf("(= %s %s)", snap[v], cur(v)))
 					}
+					mkAsserts("inv-init", eb)
 					eb.edge(h, "true")
 					e.To = eb
 				}
@@ -379,17 +395,6 @@ func (f *ILFunc) cutLoops(fnName string, defaultProps []string) {
 		}
 		for _, v := range l.Modified {
 			pre = append(pre, Stmt{K: SHavoc, V: v})
-		}
-		for _, a := range l.AutoInv {
-			// auto invariants may mention pre-loop snapshot as @pre{name}
-			e := a
-			for _, v := range l.Modified {
-				e = strings.ReplaceAll(e, "@pre{"+v.Name+"}", snap[v])
-			}
-			if strings.Contains(e, "@pre{") {
-				continue // refers to a variable that is not modified: trivially its current value
-			}
-			pre = append(pre, Stmt{K: SAssume, E: e})
 		}
 		for _, inv := range l.Inv {
 			pre = append(pre, Stmt{K: SAssume, E: inv.E})
@@ -529,11 +534,67 @@ func (f *ILFunc) passify() (vcDecls []string, order []*ILBlock) {
 
 // VCSet is the result of VC generation for one function.
 type VCSet struct {
-	Prelude string // declarations + definitions shared by all obligations
-	Obs     []*Obligation
+	Common string      // sorts, axioms, declarations
+	Blocks []*BlockDef // topological order
+	Obs    []*Obligation
+	anc    map[int]map[int]bool
+	ancOnce sync.Once
 }
 
-func (f *ILFunc) genVC(background string) *VCSet {
+type BlockDef struct {
+	ID    int
+	Text  string
+	Preds []int
+}
+
+// ancestors returns the set of blocks that can reach block id (including id).
+func (vs *VCSet) ancestors(id int) map[int]bool {
+	vs.ancOnce.Do(func() {
+		vs.anc = map[int]map[int]bool{}
+		for _, b := range vs.Blocks { // topological order: preds first
+			s := map[int]bool{b.ID: true}
+			for _, p := range b.Preds {
+				for k := range vs.anc[p] {
+					s[k] = true
+				}
+			}
+			vs.anc[b.ID] = s
+		}
+	})
+	return vs.anc[id]
+}
+
+// queryText renders the SMT problem for a group of obligations: only the blocks that can reach one of them.
+func (vs *VCSet) queryText(obs []*Obligation) string {
+	need := map[int]bool{}
+	for _, ob := range obs {
+		for k := range vs.ancestors(ob.Block) {
+			need[k] = true
+		}
+	}
+	var sb strings.Builder
+	sb.WriteString(vs.Common)
+	for _, b := range vs.Blocks {
+		if need[b.ID] || obs == nil {
+			sb.WriteString(b.Text)
+		}
+	}
+	if obs == nil {
+		return sb.String()
+	}
+	if len(obs) == 1 {
+		sb.WriteString("(assert " + obs[0].Query + ")\n")
+	} else {
+		sb.WriteString("(assert (or")
+		for _, ob := range obs {
+			sb.WriteString("\n " + ob.Query)
+		}
+		sb.WriteString("))\n")
+	}
+	return sb.String()
+}
+
+func (f *ILFunc) genVC(background string, extra func(decl string) string) *VCSet {
 	decls, order := f.passify()
 	var sb strings.Builder
 	sb.WriteString(background)
@@ -541,6 +602,9 @@ func (f *ILFunc) genVC(background string) *VCSet {
 	for _, d := range f.Decls {
 		sb.WriteString(d)
 		sb.WriteByte('\n')
+		if extra != nil {
+			sb.WriteString(extra(d))
+		}
 	}
 	for _, d := range decls {
 		sb.WriteString(d)
@@ -550,16 +614,23 @@ func (f *ILFunc) genVC(background string) *VCSet {
 	rname := func(b *ILBlock) string { return fmt.Sprintf("R$%d", b.ID) }
 	xname := func(b *ILBlock) string { return fmt.Sprintf("X$%d", b.ID) }
 	for _, b := range order {
-		// R_b
 		sb.WriteString(fmt.Sprintf("(declare-const %s Bool)\n(declare-const %s Bool)\n", rname(b), xname(b)))
-		if b == f.Entry {
-			sb.WriteString(fmt.Sprintf("(assert (= %s true))\n", rname(b)))
-		} else {
+	}
+	vs.Common = sb.String()
+	// One-directional encoding (sufficient for refutation, and it keeps quantified facts at top level):
+	//   R_b  => OR over predecessors p (X_p and edge condition and version equalities)
+	//   P_b,j => R_b and every statement before the j-th obligation of b
+	//   X_b  => R_b and every statement of b
+	for _, b := range order {
+		var bs strings.Builder
+		bd := &BlockDef{ID: b.ID}
+		if b != f.Entry {
 			var dis []string
 			for _, p := range b.Preds {
 				if p.outVer == nil {
 					continue
 				}
+				bd.Preds = append(bd.Preds, p.ID)
 				for _, e := range p.Succs {
 					if e.To != b {
 						continue
@@ -573,31 +644,47 @@ func (f *ILFunc) genVC(background string) *VCSet {
 				}
 			}
 			if len(dis) == 0 {
-				sb.WriteString(fmt.Sprintf("(assert (= %s false))\n", rname(b)))
+				bs.WriteString(fmt.Sprintf("(assert (not %s))\n", rname(b)))
 			} else {
-				sb.WriteString(fmt.Sprintf("(assert (= %s (or %s false)))\n", rname(b), strings.Join(dis, "\n   ")))
+				bs.WriteString(fmt.Sprintf("(assert (=> %s (or %s false)))\n", rname(b), strings.Join(dis, "\n   ")))
 			}
 		}
-		// statements
-		conj := []string{rname(b)}
+		curP := rname(b)
+		var pending []string
+		np := 0
 		for _, s := range b.pStmts {
 			if s.K == SAssert {
-				q := fmt.Sprintf("(assert (and %s (not %s)))", strings.Join(conj, " "), s.E)
-				if s.Ob.Cover {
-					q = fmt.Sprintf("(assert (and %s))", strings.Join(conj, " "))
+				if len(pending) > 0 {
+					np++
+					pn := fmt.Sprintf("P$%d$%d", b.ID, np)
+					bs.WriteString(fmt.Sprintf("(declare-const %s Bool)\n(assert (=> %s %s))\n", pn, pn, curP))
+					for _, e := range pending {
+						bs.WriteString(fmt.Sprintf("(assert (=> %s %s))\n", pn, e))
+					}
+					pending = nil
+					curP = pn
 				}
-				s.Ob.Query = q
+				if s.Ob.Cover {
+					s.Ob.Query = curP
+				} else {
+					s.Ob.Query = fmt.Sprintf("(and %s (not %s))", curP, s.E)
+				}
+				s.Ob.Block = b.ID
 				vs.Obs = append(vs.Obs, s.Ob)
 				if !s.Ob.Cover {
-					conj = append(conj, s.E) // assert then assume
+					pending = append(pending, s.E) // assert then assume
 				}
 			} else {
-				conj = append(conj, s.E)
+				pending = append(pending, s.E)
 			}
 		}
-		sb.WriteString(fmt.Sprintf("(assert (= %s (and %s)))\n", xname(b), strings.Join(conj, "\n   ")))
+		bs.WriteString(fmt.Sprintf("(assert (=> %s %s))\n", xname(b), curP))
+		for _, e := range pending {
+			bs.WriteString(fmt.Sprintf("(assert (=> %s %s))\n", xname(b), e))
+		}
+		bd.Text = bs.String()
+		vs.Blocks = append(vs.Blocks, bd)
 	}
-	vs.Prelude = sb.String()
 	return vs
 }
 
